@@ -105,6 +105,9 @@ class SageRef:
         remaining = set(names)
         order = []
         contrib = {}
+        # the coalitions may be evaluated in any order (e.g. from the full coalition downwards): the chain is the
+        # sequence of imputed subsets sorted by size, largest first
+        imputes = sorted(imputes, key=lambda e: -len(e[1]))
         for s, (_, subset, x_copy, n_samples, preds, inputs) in enumerate(imputes):
             gone = [n for n in remaining if n not in subset]
             if len(gone) != 1 or not set(subset) <= remaining:
@@ -199,7 +202,9 @@ def stream_driver(cfg, T, make_oracle, alpha_size=3, options=False):
             x, y = letters[i]
             kw = {}
             n_exp = cfg['n_inner']
-            if options and t >= 1:
+            # per-call options from the 2nd call on; with an imputer that does not read the explainer's storage
+            # (DefaultImputer) update_storage=False is legal on every call, including the first
+            if options and (t >= 1 or cfg['imputer'] == 'default'):
                 o = run.choose(3, 'opt', None, 1)
                 if o == 1:
                     n_exp = cfg['n_inner'] + 1
